@@ -2501,7 +2501,12 @@ class Convex:
             raise TypeError('Incorrect syntax.')
 
         if other == 0:
-            return other * self.affine_out
+            zero = other * self.affine_out
+            if not isinstance(zero, Affine):
+                zero = np.array(zero, dtype=float)
+                linear = csr_matrix((zero.size, self.model.last))
+                zero = Affine(self.model, linear, zero)
+            return zero
 
         if self.xtype in 'AMNGIEXLPFKODTC':
             multiplier = self.multiplier * abs(other)
@@ -2662,6 +2667,9 @@ class PiecewiseConvex:
 
         if not isinstance(other, Real):
             raise TypeError('Incorrect syntax.')
+
+        if other == 0:
+            return 0.0
 
         other_sign = np.sign(other)
         other_abs = abs(other)
@@ -4489,17 +4497,15 @@ class DecConvex(Convex):
 
         expr = super().__mul__(other)
         if not isinstance(expr, Convex):
+            if not isinstance(expr, DecAffine):
+                expr = DecAffine(self.affine_in.dro_model, expr, self.event_adapt)
             return expr
 
         return DecConvex(expr, self.event_adapt)
 
     def __rmul__(self, other):
 
-        expr = super().__rmul__(other)
-        if not isinstance(expr, Convex):
-            return expr
-
-        return DecConvex(expr, self.event_adapt)
+        return self.__mul__(other)
 
     def __le__(self, other):
 
@@ -4647,6 +4653,8 @@ class ExpPiecewiseConvex(PiecewiseConvex):
     def __mul__(self, other):
 
         piecewise = super().__mul__(other)
+        if not isinstance(piecewise, PiecewiseConvex):
+            return piecewise
 
         return ExpPiecewiseConvex(piecewise.model, piecewise.pieces,
                                   piecewise.sign, piecewise.add_sign)
@@ -4700,17 +4708,15 @@ class DecPerspConvex(PerspConvex):
 
         expr = super().__mul__(other)
         if not isinstance(expr, Convex):
+            if not isinstance(expr, DecAffine):
+                expr = DecAffine(self.affine_in.dro_model, expr, self.event_adapt)
             return expr
 
         return DecPerspConvex(expr, self.event_adapt)
 
     def __rmul__(self, other):
 
-        expr = super().__rmul__(other)
-        if not isinstance(expr, Convex):
-            return expr
-
-        return DecPerspConvex(expr, self.event_adapt)
+        return self.__mul__(other)
 
     def __le__(self, other):
 
